@@ -59,6 +59,9 @@ func AllocBudget(n int)
 func Go(f func())
 func Wait()
 func Yield()
+
+// WaitUntil blocks the calling thread until f() holds.
+func WaitUntil(f func() bool)
 func Tier() int
 func Symbolic() bool
 func Concrete(v int) int
